@@ -148,7 +148,7 @@ class C10(Prop):
     assumptions = ['the set of registered layers is computed by the harness with the eligibility rule of C16 (leaf Linear/Conv2d, all parameters trainable, no pattern hit)',
                    'bit-identity with the twin relies on deterministic CPU kernels (torch.use_deterministic_algorithms is not required for these ops)']
     examples = {'quick': 400, 'thorough': 1200}
-    shards = {'quick': 4, 'thorough': 16}
+    shards = {'quick': 8, 'thorough': 16}
     required_labels = {'quick': ['nontrivial=True', 'param_dtype=bfloat16', 'param_dtype=float64', 'residual=True', 'frozen=True', 'skipped=True', 'mem_format=channels_last', 'factor_dtype_is_param_dtype=True', 'mid_iteration_eval=True', 'autocast=True', 'mixed_modes=True', 'model_channels_last=True', 'wide_grads=True'],
                        'thorough': ['nontrivial=True', 'param_dtype=bfloat16', 'param_dtype=float64', 'residual=True', 'frozen=True', 'skipped=True', 'mem_format=channels_last', 'factor_dtype_is_param_dtype=True', 'mid_iteration_eval=True', 'autocast=True', 'mixed_modes=True', 'model_channels_last=True', 'wide_grads=True']}
 
